@@ -37,7 +37,13 @@ def one(args):
 
 def main():
     mids = sorted(d for d in os.listdir(f"{V}/seeded") if os.path.exists(f"{V}/seeded/{d}/patch.diff") and os.path.exists(f"{V}/seeded/{d}/meta.json"))
+    only = os.environ.get("HARVEST_ONLY")        # e.g. "C..d[a-d]$": harvest these changes only and MERGE into the existing corpus
     corpus = collections.defaultdict(list)
+    if only:
+        import re
+        mids = [m for m in mids if re.search(only, m)]
+        for f in glob.glob(f"{V}/corpus/C*.json"):
+            corpus[os.path.basename(f)[:-5]] = json.load(open(f))
     for w in range(0, len(mids), 4):
         with cf.ThreadPoolExecutor(4) as ex:
             for mid, prop, got in ex.map(one, [(m, i) for i, m in enumerate(mids[w:w + 4])]):
